@@ -22,7 +22,7 @@ ASSUMPTIONS = ['texts for which ast.parse raises something other than SyntaxErro
                'the label may be syntax_error or indentation_error for any SyntaxError subclass']
 PATTERN = re.compile(r'^(##### Part .+)$', re.MULTILINE)
 EDIT_ALPHABET = list('()[]{}:,\'"\\#= \t\n\r\f\0;.@*') + ['é', 'λ', '変', 'if ', 'def ', 'else', 'return ', '"""', "'''", '    ', '\n    ', '0x', '1e', ' ',
-                                                          '﻿', 'lambda', 'print', '->', ':=', '!=', '\\\n']
+                                                          '﻿', 'lambda', 'print', '->', ':=', '!=', '\\\n', '# type: ', '  # type: ignore\n', '# -*- coding: ']
 
 
 @st.composite
@@ -43,11 +43,34 @@ def edited_program(draw):
     return text
 
 
+# comments that tools (type checkers, linters, the tokenizer's coding cookie) give a meaning to: CPython's parser itself ignores them
+COMMENTS = ['# type: int', '# type: ignore', '# type: ignore[attr-defined]', '# type: (int) -> int', '#type:x', '# type:', '# type: List[str]', '# noqa', '# fmt: off',
+            '# pragma: no cover', '# -*- coding: utf-8 -*-', '# -*- coding: latin-1 -*-', '# vim: set fileencoding=no_such_codec :', '#!/usr/bin/env python3',
+            '# TODO', '#', '# type: greeting', '# coding=ascii é']
+
+
+@st.composite
+def commented_program(draw):
+    lines = draw(G.any_valid_program(stdlib=False)).split('\n')
+    for _ in range(draw(st.integers(1, 3))):
+        i = draw(st.integers(0, len(lines) - 1))
+        c = draw(st.sampled_from(COMMENTS))
+        how = draw(st.integers(0, 2))
+        if how == 0:
+            lines[i] = lines[i] + '  ' + c
+        elif how == 1:
+            indent = lines[i][:len(lines[i]) - len(lines[i].lstrip())]
+            lines.insert(i, indent + c)
+        else:
+            lines.insert(i, c)
+    return '\n'.join(lines)
+
+
 _TEXT = st.text(st.characters(exclude_categories=['Cs']), max_size=60)
 _BLANK = st.text(st.sampled_from(list(' \t\n\r\f\v') + ['\x1c', '\x85', ' ']), max_size=8)
 _LINEY = st.lists(st.sampled_from(['x = 1', '  y = 2', '\tz = 3', 'if x:', 'else:', '    pass', 'print(', ')', '"""', '# c', '', 'def f():', '  return 1',
                                    'for i in range(3):', 'x = (1,', '2)', 'é = 1', 'a = "\\', 'b"', 'class A: pass', '\x0c', 'x = 1 \\', '@', 'lambda: (yield)',
-                                   '1 +', 'import', '    \tq = 1', '\t    w = 1', 'try:', 'except:', 'async def g(): await h()', 'match x:', '    case 1: pass']),
+                                   '1 +', 'import', '    \tq = 1', '\t    w = 1', 'try:', 'except:', 'async def g(): await h()', 'match x:', '    case 1: pass', 'names = []  # type: list', '# type: int', 'import os # type: module', 'def g(a):', '    # type: (int) -> int']),
                   max_size=8).map('\n'.join)
 
 
@@ -58,7 +81,7 @@ _TABMIX = st.tuples(st.sampled_from(['if x:', 'def f():', 'for i in y:', 'while 
 
 
 def texts(tier):
-    base = st.one_of(G.any_valid_program(stdlib=False), edited_program(), edited_program(), _TEXT, _BLANK, _LINEY, _LINEY.map(lambda t: t + '\n'),
+    base = st.one_of(G.any_valid_program(stdlib=False), edited_program(), edited_program(), commented_program(), _TEXT, _BLANK, _LINEY, _LINEY.map(lambda t: t + '\n'),
                      _TABMIX)
     prev = st.one_of(st.none(), st.none(), st.sampled_from(['a = 1\nb = 2\nc = a + b\nprint(c)\n', 'x = (\n', '', 'def f():\n    return 1\nf()\nf()\n']))
     return st.fixed_dictionaries({'text': base, 'offset': st.sampled_from([0, 0, 1, 2, 5]), 'prev': prev, 'exotic': st.sampled_from([0, 0, 1, 2, 3])})
